@@ -330,3 +330,267 @@ pub fn zip_copied_for_each(dst: &mut [u8; 6], part: &[u8; 4]) -> usize {
 pub fn cloned_fold(src: &[u8; 3]) -> u8 {
     src.iter().cloned().fold(0u8, |a, b| a ^ b)
 }
+
+// ---- round 4 idioms ------------------------------------------------------------------------------------------
+pub fn try_from_len(data: &[u8]) -> Result<u8, ()> {
+    let n = data.len().checked_add(5).ok_or(())?;
+    u8::try_from(n).map_err(|_| ())
+}
+
+pub fn usize_try_from(x: u32) -> Option<usize> {
+    usize::try_from(x).ok()
+}
+
+pub fn then_some_contains(x: u8) -> Option<u8> {
+    (0x08..=0xF7).contains(&x).then_some(x)
+}
+
+pub fn is_some_and_get(data: &[u8]) -> bool {
+    data.get(2).is_some_and(|b| *b & 0x80 != 0)
+}
+
+pub fn split_last_pec(data: &[u8]) -> Option<(u8, usize)> {
+    let (last, rest) = data.split_last()?;
+    Some((*last, rest.len()))
+}
+
+pub fn split_first_rest(data: &[u8; 5]) -> u8 {
+    match data.split_first() {
+        Some((f, rest)) => *f ^ rest[3],
+        None => 0,
+    }
+}
+
+pub fn first_chunk4(data: &[u8]) -> Option<[u8; 4]> {
+    data.first_chunk::<4>().copied()
+}
+
+pub fn split_first_chunk2(data: &[u8]) -> Option<(u16, usize)> {
+    let (head, rest) = data.split_first_chunk::<2>()?;
+    Some((u16::from_be_bytes(*head), rest.len()))
+}
+
+pub fn try_fold_sum(data: &[u8; 4]) -> Option<u8> {
+    data.iter().try_fold(0u8, |a, b| a.checked_add(*b))
+}
+
+pub fn try_for_each_write(dst: &mut [u8; 4], src: &[u8; 6]) -> Result<(), ()> {
+    let mut i = 0;
+    src.iter().try_for_each(|b| {
+        let slot = dst.get_mut(i).ok_or(())?;
+        *slot = *b;
+        i += 1;
+        Ok(())
+    })
+}
+
+pub fn map_or_len(h: &Option<&[u8]>) -> usize {
+    h.map_or(0, |s| s.len()) + 1
+}
+
+pub fn find_in_table(code: u8) -> usize {
+    const T: [(u8, usize); 4] = [(1, 2), (2, 0), (5, 1), (9, 7)];
+    T.iter().find(|(c, _)| *c == code).map_or(0, |(_, l)| *l)
+}
+
+pub fn enumerate_write(dst: &mut [u8; 8], src: &[u8; 3]) {
+    for (i, b) in src.iter().enumerate() {
+        dst[i + 2] = *b;
+    }
+}
+
+pub fn take_zip(dst: &mut [u8; 8], src: &[u8], n: usize) {
+    for (d, s) in dst.iter_mut().zip(src.iter().take(n)) {
+        *d = *s;
+    }
+}
+
+pub fn last_or(data: &[u8]) -> u8 {
+    data.last().copied().unwrap_or(0xFF)
+}
+
+pub fn tuple_match(format: u8, data: &[u8]) -> usize {
+    match (format, data.len()) {
+        (0, 2) => 3,
+        (1, 4) => 5,
+        (_, n) if n > 6 => 0,
+        _ => 1,
+    }
+}
+
+pub fn slice_pat_rest(data: &[u8]) -> Option<(u8, u8, usize)> {
+    match data {
+        [a, b, rest @ ..] => Some((*a, *b, rest.len())),
+        _ => None,
+    }
+}
+
+pub fn slice_pat_ends(data: &[u8]) -> u8 {
+    match data {
+        [first, .., last] => *first ^ *last,
+        [one] => *one,
+        [] => 0,
+    }
+}
+
+pub fn u8_from_bool_shift(a: bool, b: u8) -> u8 {
+    u8::from(a) << 4 | (b & 0x03)
+}
+
+pub fn usize_from(x: u8) -> usize {
+    usize::from(x) + 4
+}
+
+pub struct Writer<'a> {
+    buf: &'a mut [u8],
+    pos: usize,
+}
+
+impl<'a> Writer<'a> {
+    pub fn new(buf: &'a mut [u8]) -> Self {
+        Writer { buf, pos: 0 }
+    }
+    fn put(&mut self, b: u8) {
+        self.buf[self.pos] = b;
+        self.pos += 1;
+    }
+    fn put_slice(&mut self, s: &[u8]) {
+        self.buf[self.pos..self.pos + s.len()].copy_from_slice(s);
+        self.pos += s.len();
+    }
+}
+
+pub fn writer_cursor(buf: &mut [u8], hdr: &[u8; 4], body: &[u8]) -> usize {
+    let mut w = Writer::new(buf);
+    w.put(0x20);
+    w.put_slice(hdr);
+    w.put_slice(body);
+    w.pos
+}
+
+pub struct Bytes<const N: usize> {
+    data: [u8; N],
+    len: usize,
+}
+
+impl<const N: usize> Bytes<N> {
+    fn new() -> Self {
+        Bytes { data: [0; N], len: 0 }
+    }
+    fn push(&mut self, b: u8) {
+        self.data[self.len] = b;
+        self.len += 1;
+    }
+    fn extend_from_slice(&mut self, s: &[u8]) {
+        self.data[self.len..self.len + s.len()].copy_from_slice(s);
+        self.len += s.len();
+    }
+    fn as_slice(&self) -> &[u8] {
+        &self.data[..self.len]
+    }
+}
+
+pub fn bytes_builder(out: &mut [u8; 16], a: u8, tail: &[u8; 3]) -> usize {
+    let mut b = Bytes::<8>::new();
+    b.push(a);
+    b.extend_from_slice(tail);
+    let s = b.as_slice();
+    out[..s.len()].copy_from_slice(s);
+    s.len()
+}
+
+pub fn fn_once_helper(buf: &mut [u8; 4], v: u8) -> usize {
+    fn with<F: FnOnce(&mut [u8; 4]) -> usize>(b: &mut [u8; 4], f: F) -> usize {
+        f(b)
+    }
+    with(buf, |b| {
+        b[1] = v;
+        2
+    })
+}
+
+pub fn windows_xor(data: &[u8; 4]) -> u8 {
+    let mut x = 0;
+    for w in data.windows(2) {
+        x ^= w[0] & w[1];
+    }
+    x
+}
+
+pub fn copy_within_shift(buf: &mut [u8; 8]) {
+    buf.copy_within(0..4, 2);
+}
+
+pub fn slice_swap(buf: &mut [u8; 4]) {
+    buf.swap(0, 3);
+}
+
+pub fn chain_slices(dst: &mut [u8; 6], a: &[u8; 2], b: &[u8; 3]) -> usize {
+    let mut n = 0;
+    for (d, s) in dst.iter_mut().zip(a.iter().chain(b.iter())) {
+        *d = *s;
+        n += 1;
+    }
+    n
+}
+
+pub fn filter_map_first(data: &[u8; 4]) -> Option<u8> {
+    data.iter().filter(|b| **b != 0).map(|b| *b + 1).next()
+}
+
+pub fn and_then_chain(data: &[u8]) -> Option<u8> {
+    data.first().and_then(|f| data.get(usize::from(*f & 3))).copied()
+}
+
+pub fn saturating_sub_len(data: &[u8]) -> usize {
+    data.len().saturating_sub(4)
+}
+
+pub fn opt_filter(x: Option<u8>) -> Option<u8> {
+    x.filter(|v| *v < 0x20)
+}
+
+pub fn iter_max_len(a: &[u8; 3]) -> u8 {
+    a.iter().copied().max().unwrap_or(0)
+}
+
+pub fn be16_roundtrip(x: u16, out: &mut [u8; 2]) -> u16 {
+    *out = x.to_be_bytes();
+    u16::from_be_bytes([out[0], out[1]])
+}
+
+pub fn try_into_array(data: &[u8]) -> Option<u32> {
+    let a: [u8; 4] = data.get(1..5)?.try_into().ok()?;
+    Some(u32::from_be_bytes(a))
+}
+
+pub fn try_into_ref(data: &[u8]) -> Result<u8, ()> {
+    let a: &[u8; 3] = data.try_into().map_err(|_| ())?;
+    Ok(a[2])
+}
+
+pub fn last_chunk2(data: &[u8]) -> Option<u8> {
+    data.last_chunk::<2>().map(|c| c[0] ^ c[1])
+}
+
+pub fn first_chunk_mut_write(data: &mut [u8], v: [u8; 2]) -> bool {
+    match data.first_chunk_mut::<2>() {
+        Some(c) => {
+            *c = v;
+            true
+        }
+        None => false,
+    }
+}
+
+pub fn cmp_match(a: u8, b: u8) -> u8 {
+    match a.cmp(&b) {
+        core::cmp::Ordering::Less => 1,
+        core::cmp::Ordering::Equal => 2,
+        core::cmp::Ordering::Greater => 3,
+    }
+}
+
+pub fn min_len(a: &[u8], n: usize) -> usize {
+    a.len().min(n) + core::cmp::max(n, 2)
+}
